@@ -269,10 +269,22 @@ class ObjCrossRef:
             locally defined scope providers.
     """
 
-    def __init__(self, obj_name, cls, position, scope_provider, match_rule_name):
+    def __init__(
+        self,
+        obj_name,
+        cls,
+        position,
+        scope_provider,
+        match_rule_name,
+        position_end=None,
+    ):
         self.obj_name = obj_name
         self.cls = cls
         self.position = position
+        # End position of the reference text in the input string.
+        self.position_end = (
+            position + len(str(obj_name)) if position_end is None else position_end
+        )
         self.scope_provider = scope_provider
         self.match_rule_name = match_rule_name
 
@@ -756,6 +768,7 @@ def parse_tree_to_objgraph(
                         position=node[0].position,
                         scope_provider=p,
                         match_rule_name=rn,
+                        position_end=node[0].position_end,
                     )
                     parser._crossrefs.append((model_obj, metaattr, value))
                     return model_obj
@@ -785,6 +798,7 @@ def parse_tree_to_objgraph(
                                 position=n.position,
                                 scope_provider=p,
                                 match_rule_name=rn,
+                                position_end=n.position_end,
                             )
 
                             parser._crossrefs.append((obj_attr, metaattr, value))
@@ -1200,7 +1214,7 @@ class ReferenceResolver:
                         RefRulePosition(
                             name=crossref.obj_name,
                             ref_pos_start=crossref.position,
-                            ref_pos_end=crossref.position + len(resolved.name),
+                            ref_pos_end=crossref.position_end,
                             def_file_name=get_model(resolved)._tx_filename,
                             def_pos_start=resolved._tx_position,
                             def_pos_end=resolved._tx_position_end,
